@@ -19,6 +19,7 @@ ANCHORS = ['pycaption.base:Caption._format_timestamp', 'pycaption.base:Caption.f
            'pycaption.sami:SAMIWriter._recreate_blank_tag', 'pycaption.sami:SAMIWriter._find_closest_sync',
            'pycaption.microdvd:MicroDVDWriter._microtoframes', 'pycaption.srt:SRTWriter._recreate_lang',
            'pycaption.base:merge_concurrent_captions']
+THOROUGH_SCALE = 3        # random budgets of the thorough tier are multiplied by this
 REQUIRE = {'writes_' + w: 30 for w in W.WRITERS}
 REQUIRE.update({'sami_sequence_checks': 20, 'sami_multiset_checks': 5, 'float_time_sets': 20, 'runs_present': 20, 'sami_blank_syncs_required': 20,
                 'sami_blank_syncs_forbidden': 10, 'sami_multi_language': 10, 'cues_compared': 1000,
